@@ -20,11 +20,11 @@ Proof.
   intro o. unfold is_active. destruct (ost o) as [st|]; [destruct st|]; split; intro H; try reflexivity; discriminate.
 Qed.
 
-Lemma uid_new_obj : forall u t m, uid (new_obj u t m) = u.
-Proof. intros. unfold new_obj. destruct (has_state t); reflexivity. Qed.
+Lemma uid_new_obj : forall u t m v, uid (new_objv u t m v) = u.
+Proof. intros. unfold new_objv. destruct (has_state t); reflexivity. Qed.
 
-Lemma ost_new_obj : forall u t m, live_state (ost (new_obj u t m)).
-Proof. intros. unfold new_obj, live_state. destruct (has_state t); simpl; split; discriminate. Qed.
+Lemma ost_new_obj : forall u t m v, live_state (ost (new_objv u t m v)).
+Proof. intros. unfold new_objv, live_state. destruct (has_state t); simpl; split; discriminate. Qed.
 
 Lemma lookup_uid : forall l v o, lookup v l = Some o -> uid o = v.
 Proof.
@@ -36,7 +36,7 @@ Lemma lookup_set_state : forall l u st v,
   lookup v (set_state u st l) =
   match lookup v l with
   | None => None
-  | Some o => Some (if uid o =? u then mkobj (uid o) (oty o) (Some st) (omask o) else o)
+  | Some o => Some (if uid o =? u then mkobj (uid o) (oty o) (Some st) (omask o) (oval o) else o)
   end.
 Proof.
   induction l as [|a l IH]; simpl; intros u st v. reflexivity.
@@ -62,14 +62,17 @@ Proof.
   destruct (uid a =? v). reflexivity. apply IH.
 Qed.
 
-Lemma lookup_add_old : forall s t m v ob, lookup v (objs s) = Some ob -> lookup v (objs (add_obj s t m)) = Some ob.
-Proof. intros. unfold add_obj; simpl. rewrite lookup_app, H. reflexivity. Qed.
+Lemma lookup_addv_old : forall s t m b v ob, lookup v (objs s) = Some ob -> lookup v (objs (add_objv s t m b)) = Some ob.
+Proof. intros. unfold add_objv; simpl. rewrite lookup_app, H. reflexivity. Qed.
 
-Lemma lookup_add_inv : forall s t m v ob,
-  lookup v (objs (add_obj s t m)) = Some ob ->
-  lookup v (objs s) = Some ob \/ (lookup v (objs s) = None /\ v = next_uid s /\ ob = new_obj (next_uid s) t m).
+Lemma lookup_add_old : forall s t m v ob, lookup v (objs s) = Some ob -> lookup v (objs (add_obj s t m)) = Some ob.
+Proof. intros. apply lookup_addv_old. assumption. Qed.
+
+Lemma lookup_add_inv : forall s t m b v ob,
+  lookup v (objs (add_objv s t m b)) = Some ob ->
+  lookup v (objs s) = Some ob \/ (lookup v (objs s) = None /\ v = next_uid s /\ ob = new_objv (next_uid s) t m b).
 Proof.
-  intros s t m v ob H. unfold add_obj in H; simpl in H. rewrite lookup_app in H.
+  intros s t m b v ob H. unfold add_objv in H; simpl in H. rewrite lookup_app in H.
   destruct (lookup v (objs s)) as [o|]. left; exact H.
   right. rewrite uid_new_obj in H. destruct (next_uid s =? v) eqn:E; [|discriminate].
   inversion H. repeat split. lia.
@@ -79,12 +82,15 @@ Qed.
 Lemma wf_empty : forall n, wf (empty_store n).
 Proof. intros n v ob H. simpl in H. discriminate. Qed.
 
-Lemma wf_add : forall s t m, wf s -> wf (add_obj s t m).
+Lemma wf_addv : forall s t m b, wf s -> wf (add_objv s t m b).
 Proof.
-  intros s t m W v ob H. apply lookup_add_inv in H. destruct H as [H|[_ [E1 E2]]].
-  - destruct (W _ _ H). split. unfold add_obj; simpl. lia. assumption.
-  - subst. split. unfold add_obj; simpl. lia. apply ost_new_obj.
+  intros s t m b W v ob H. apply lookup_add_inv in H. destruct H as [H|[_ [E1 E2]]].
+  - destruct (W _ _ H). split. unfold add_objv; simpl. lia. assumption.
+  - subst. split. unfold add_objv; simpl. lia. apply ost_new_obj.
 Qed.
+
+Lemma wf_add : forall s t m, wf s -> wf (add_obj s t m).
+Proof. intros. apply wf_addv. assumption. Qed.
 
 Lemma wf_set_state : forall s u st, wf s -> st <> Destroyed -> st <> DestroyedCompromised ->
   wf (mkstore (set_state u st (objs s)) (next_uid s)).
@@ -121,15 +127,17 @@ Proof.
   - exact W.
   - exact W.
   - destruct (lookup u (objs s)) as [ob|]; [|exact W].
-    destruct (negb (alg || is_key (oty ob))). exact W. destruct (negb data). exact W.
+    destruct (negb (alg || is_key (oty ob))). exact W. destruct (negb (oval ob)). exact W. destruct (negb data). exact W.
     destruct (negb (mac_kind_b (oty ob))). exact W.
     destruct (ost ob) as [st|]; [|exact W]. destruct (negb (state_eqb st Active)). exact W.
     destruct (negb (has_bit (omask ob) bMAC_GENERATE)). exact W. destruct cok; exact W.
-  - destruct (derive_bases s us). exact W. destruct us. exact W. destruct cok. apply wf_add; assumption. exact W.
+  - destruct (derive_bases s us). exact W. destruct us. exact W. destruct (len <? 0). exact W. destruct (negb (len mod 8 =? 0)). exact W. destruct cok. apply wf_addv; assumption. exact W.
   - destruct (lookup u (objs s)) as [ob|]; [|exact W]. destruct (lookup w (objs s)) as [k|]; [|exact W].
     destruct (negb (otype_eqb (oty k) SymmetricKey)). exact W. destruct (negb (is_active k)). exact W.
     destruct (negb (has_bit (omask k) bWRAP_KEY)). exact W. destruct (negb (has_key_block (oty ob))). exact W. destruct cok; exact W.
   - destruct (lookup u (objs s)); exact W.
+  - destruct (lookup u (objs s)); exact W.
+  - exact W.
 Qed.
 
 Lemma exec_wf : forall h s, wf s -> wf (exec s h).
@@ -141,12 +149,15 @@ Qed.
 Lemma typed_empty : forall n, wf_typed (empty_store n).
 Proof. intros n v ob H. simpl in H. discriminate. Qed.
 
-Lemma typed_add : forall s t m, wf_typed s -> wf_typed (add_obj s t m).
+Lemma typed_addv : forall s t m b, wf_typed s -> wf_typed (add_objv s t m b).
 Proof.
-  intros s t m W v ob H T. apply lookup_add_inv in H. destruct H as [H|[_ [_ E]]].
+  intros s t m b W v ob H T. apply lookup_add_inv in H. destruct H as [H|[_ [_ E]]].
   - eapply W; eassumption.
-  - subst ob. unfold new_obj in *. destruct t; simpl in *; try discriminate. reflexivity.
+  - subst ob. unfold new_objv in *. destruct t; simpl in *; try discriminate. reflexivity.
 Qed.
+
+Lemma typed_add : forall s t m, wf_typed s -> wf_typed (add_obj s t m).
+Proof. intros. apply typed_addv. assumption. Qed.
 
 Lemma typed_set_state : forall s u st tg st0, wf_typed s ->
   lookup u (objs s) = Some tg -> ost tg = Some st0 ->
@@ -183,15 +194,17 @@ Proof.
   - exact W.
   - exact W.
   - destruct (lookup u (objs s)) as [ob|]; [|exact W].
-    destruct (negb (alg || is_key (oty ob))). exact W. destruct (negb data). exact W.
+    destruct (negb (alg || is_key (oty ob))). exact W. destruct (negb (oval ob)). exact W. destruct (negb data). exact W.
     destruct (negb (mac_kind_b (oty ob))). exact W.
     destruct (ost ob) as [st|]; [|exact W]. destruct (negb (state_eqb st Active)). exact W.
     destruct (negb (has_bit (omask ob) bMAC_GENERATE)). exact W. destruct cok; exact W.
-  - destruct (derive_bases s us). exact W. destruct us. exact W. destruct cok. apply typed_add; assumption. exact W.
+  - destruct (derive_bases s us). exact W. destruct us. exact W. destruct (len <? 0). exact W. destruct (negb (len mod 8 =? 0)). exact W. destruct cok. apply typed_addv; assumption. exact W.
   - destruct (lookup u (objs s)) as [ob|]; [|exact W]. destruct (lookup w (objs s)) as [k|]; [|exact W].
     destruct (negb (otype_eqb (oty k) SymmetricKey)). exact W. destruct (negb (is_active k)). exact W.
     destruct (negb (has_bit (omask k) bWRAP_KEY)). exact W. destruct (negb (has_key_block (oty ob))). exact W. destruct cok; exact W.
   - destruct (lookup u (objs s)); exact W.
+  - destruct (lookup u (objs s)); exact W.
+  - exact W.
 Qed.
 
 Lemma exec_typed : forall h s, wf_typed s -> wf_typed (exec s h).
@@ -216,8 +229,11 @@ Definition kept (o : op) (out : outcome) (v : Z) (ob : obj) (s' : store) : Prop 
 Lemma kept_same : forall o out v ob s, lookup v (objs s) = Some ob -> kept o out v ob s.
 Proof. intros. right. exists ob. repeat split; try assumption. apply T_same. Qed.
 
+Lemma kept_addv : forall o out v ob s t m b, lookup v (objs s) = Some ob -> kept o out v ob (add_objv s t m b).
+Proof. intros. right. exists ob. repeat split. apply lookup_addv_old; assumption. apply T_same. Qed.
+
 Lemma kept_add : forall o out v ob s t m, lookup v (objs s) = Some ob -> kept o out v ob (add_obj s t m).
-Proof. intros. right. exists ob. repeat split. apply lookup_add_old; assumption. apply T_same. Qed.
+Proof. intros. apply kept_addv. assumption. Qed.
 
 Lemma step_kept : forall cok s o out s' v ob,
   step cok s o = (out, s') -> lookup v (objs s) = Some ob -> kept o out v ob s'.
@@ -268,6 +284,7 @@ Proof.
   - (* MAC *)
     destruct (lookup u (objs s)) as [tg|]; [|inversion H; subst; apply kept_same; assumption].
     destruct (negb (alg || is_key (oty tg))); [inversion H; subst; apply kept_same; assumption|].
+    destruct (negb (oval tg)); [inversion H; subst; apply kept_same; assumption|].
     destruct (negb data); [inversion H; subst; apply kept_same; assumption|].
     destruct (negb (mac_kind_b (oty tg))); [inversion H; subst; apply kept_same; assumption|].
     destruct (ost tg) as [st|]; [|inversion H; subst; apply kept_same; assumption].
@@ -277,7 +294,9 @@ Proof.
   - (* DeriveKey *)
     destruct (derive_bases s us); [inversion H; subst; apply kept_same; assumption|].
     destruct us; [inversion H; subst; apply kept_same; assumption|].
-    destruct cok; inversion H; subst. apply kept_add; assumption. apply kept_same; assumption.
+    destruct (len <? 0); [inversion H; subst; apply kept_same; assumption|].
+    destruct (negb (len mod 8 =? 0)); [inversion H; subst; apply kept_same; assumption|].
+    destruct cok; inversion H; subst. apply kept_addv; assumption. apply kept_same; assumption.
   - (* GetWrap *)
     destruct (lookup u (objs s)) as [tg|]; [|inversion H; subst; apply kept_same; assumption].
     destruct (lookup w (objs s)) as [k|]; [|inversion H; subst; apply kept_same; assumption].
@@ -287,6 +306,8 @@ Proof.
     destruct (negb (has_key_block (oty tg))); [inversion H; subst; apply kept_same; assumption|].
     destruct cok; inversion H; subst; apply kept_same; assumption.
   - destruct (lookup u (objs s)); inversion H; subst; apply kept_same; assumption.
+  - destruct (lookup u (objs s)); inversion H; subst; apply kept_same; assumption.
+  - inversion H; subst; apply kept_same; assumption.
 Qed.
 
 (* ------------------------------------------------------------------ C04 clause 1: transitions *)
@@ -384,15 +405,17 @@ Proof.
     destruct (negb (state_eqb st Active)); simpl; lia.
   - destruct (lookup u (objs s)) as [ob|]; simpl; [|lia]. destruct (is_active ob); simpl; lia.
   - destruct (lookup u (objs s)) as [ob|]; simpl; [|lia].
-    destruct (negb (alg || is_key (oty ob))); simpl; [lia|]. destruct (negb data); simpl; [lia|].
+    destruct (negb (alg || is_key (oty ob))); simpl; [lia|]. destruct (negb (oval ob)); simpl; [lia|]. destruct (negb data); simpl; [lia|].
     destruct (negb (mac_kind_b (oty ob))); simpl; [lia|].
     destruct (ost ob) as [st|]; simpl; [|lia]. destruct (negb (state_eqb st Active)); simpl; [lia|].
     destruct (negb (has_bit (omask ob) bMAC_GENERATE)); simpl; [lia|]. destruct cok; simpl; lia.
-  - destruct (derive_bases s us); simpl; [lia|]. destruct us; simpl; [lia|]. destruct cok; simpl; lia.
+  - destruct (derive_bases s us); simpl; [lia|]. destruct us; simpl; [lia|]. destruct (len <? 0); simpl; [lia|].
+    destruct (negb (len mod 8 =? 0)); simpl; [lia|]. destruct cok; simpl; lia.
   - destruct (lookup u (objs s)) as [ob|]; simpl; [|lia]. destruct (lookup w (objs s)) as [k|]; simpl; [|lia].
     destruct (negb (otype_eqb (oty k) SymmetricKey)); simpl; [lia|]. destruct (negb (is_active k)); simpl; [lia|].
     destruct (negb (has_bit (omask k) bWRAP_KEY)); simpl; [lia|].
     destruct (negb (has_key_block (oty ob))); simpl; [lia|]. destruct cok; simpl; lia.
+  - destruct (lookup u (objs s)); simpl; lia.
   - destruct (lookup u (objs s)); simpl; lia.
 Qed.
 
@@ -402,11 +425,11 @@ Lemma step_dead : forall cok s o v,
   lookup v (objs s) = None -> v < next_uid s -> lookup v (objs (snd (step cok s o))) = None.
 Proof.
   intros cok s o v L B.
-  assert (A : forall s0 t m, lookup v (objs s0) = None -> v < next_uid s0 -> lookup v (objs (add_obj s0 t m)) = None).
-  { intros s0 t m L0 B0. unfold add_obj; simpl. rewrite lookup_app, L0, uid_new_obj. destruct (next_uid s0 =? v) eqn:E. lia. reflexivity. }
+  assert (A : forall s0 t m b, lookup v (objs s0) = None -> v < next_uid s0 -> lookup v (objs (add_objv s0 t m b)) = None).
+  { intros s0 t m b L0 B0. unfold add_objv; simpl. rewrite lookup_app, L0, uid_new_obj. destruct (next_uid s0 =? v) eqn:E. lia. reflexivity. }
   destruct o; cbn [step snd fst]; try assumption.
   - apply A; assumption.
-  - apply A. apply A; assumption. unfold add_obj; simpl. lia.
+  - apply A. apply A; assumption. unfold add_obj, add_objv; simpl. lia.
   - apply A; assumption.
   - destruct (lookup u (objs s)) as [ob|]; simpl; [|assumption]. destruct (ost ob) as [st|]; simpl; [|assumption].
     destruct (negb (state_eqb st PreActive)); simpl. assumption. rewrite lookup_set_state, L. reflexivity.
@@ -416,16 +439,18 @@ Proof.
   - destruct (lookup u (objs s)) as [ob|]; simpl; [|assumption]. destruct (is_active ob); simpl. assumption.
     rewrite lookup_remove, L. destruct (v =? u); reflexivity.
   - destruct (lookup u (objs s)) as [ob|]; simpl; [|assumption].
-    destruct (negb (alg || is_key (oty ob))); simpl; [assumption|]. destruct (negb data); simpl; [assumption|].
+    destruct (negb (alg || is_key (oty ob))); simpl; [assumption|]. destruct (negb (oval ob)); simpl; [assumption|]. destruct (negb data); simpl; [assumption|].
     destruct (negb (mac_kind_b (oty ob))); simpl; [assumption|].
     destruct (ost ob) as [st|]; simpl; [|assumption]. destruct (negb (state_eqb st Active)); simpl; [assumption|].
     destruct (negb (has_bit (omask ob) bMAC_GENERATE)); simpl; [assumption|]. destruct cok; simpl; assumption.
   - destruct (derive_bases s us); simpl; [assumption|]. destruct us; simpl; [assumption|].
+    destruct (len <? 0); simpl; [assumption|]. destruct (negb (len mod 8 =? 0)); simpl; [assumption|].
     destruct cok; simpl. apply A; assumption. assumption.
   - destruct (lookup u (objs s)) as [ob|]; simpl; [|assumption]. destruct (lookup w (objs s)) as [k|]; simpl; [|assumption].
     destruct (negb (otype_eqb (oty k) SymmetricKey)); simpl; [assumption|]. destruct (negb (is_active k)); simpl; [assumption|].
     destruct (negb (has_bit (omask k) bWRAP_KEY)); simpl; [assumption|].
     destruct (negb (has_key_block (oty ob))); simpl; [assumption|]. destruct cok; simpl; assumption.
+  - destruct (lookup u (objs s)); simpl; assumption.
   - destruct (lookup u (objs s)); simpl; assumption.
 Qed.
 
@@ -526,6 +551,7 @@ Proof.
   intros cok s u alg data r s' H E. simpl in H.
   destruct (lookup u (objs s)) as [ob|]; [|inversion H; subst; destruct E as [E|[E|E]]; discriminate].
   destruct (negb (alg || is_key (oty ob))); [inversion H; subst; destruct E as [E|[E|E]]; discriminate|].
+  destruct (negb (oval ob)) eqn:GV; [inversion H; subst; destruct E as [E|[E|E]]; discriminate|].
   destruct (negb data); [inversion H; subst; destruct E as [E|[E|E]]; discriminate|].
   destruct (negb (mac_kind_b (oty ob))) eqn:G0; [inversion H; subst; destruct E as [E|[E|E]]; discriminate|].
   destruct (ost ob) as [st|] eqn:St; [|inversion H; subst; destruct E as [E|[E|E]]; discriminate].
@@ -568,17 +594,20 @@ Proof.
   eapply IH; eassumption.
 Qed.
 
-Theorem derive_key_gated : forall cok s us m r s',
-  step cok s (DeriveKey us m) = (r, s') -> entered r ->
-  us <> [] /\
+Theorem derive_key_gated : forall cok s us m len r s',
+  step cok s (DeriveKey us m len) = (r, s') -> entered r ->
+  us <> [] /\ 0 <= len /\ len mod 8 = 0 /\
   (forall u, In u us -> exists ob, lookup u (objs s) = Some ob /\ derivable (oty ob) = true /\ has_bit (omask ob) bDERIVE_KEY = true) /\
-  (r = OK -> s' = add_obj s SymmetricKey m) /\ (r <> OK -> s' = s).
+  (r = OK -> s' = add_objv s SymmetricKey m (negb (len =? 0))) /\ (r <> OK -> s' = s).
 Proof.
-  intros cok s us m r s' H E. simpl in H.
+  intros cok s us m len r s' H E. simpl in H.
   destruct (derive_bases s us) as [x|] eqn:D.
   - inversion H; subst. exfalso. eapply derive_bases_not_entered; eassumption.
   - destruct us as [|a us]. inversion H; subst. destruct E as [E|[E|E]]; discriminate.
-    split. discriminate. split. apply derive_bases_none; assumption.
+    destruct (len <? 0) eqn:G1; [inversion H; subst; destruct E as [E|[E|E]]; discriminate|].
+    destruct (negb (len mod 8 =? 0)) eqn:G2; [inversion H; subst; destruct E as [E|[E|E]]; discriminate|].
+    apply negb_false_iff in G2.
+    split. discriminate. split. lia. split. lia. split. apply derive_bases_none; assumption.
     destruct cok; inversion H; subst; split; intro X; try reflexivity; try discriminate; congruence.
 Qed.
 
@@ -618,7 +647,7 @@ Proof.
   - eapply sign_gated; eassumption.
   - eapply signature_verify_gated; eassumption.
   - eapply mac_gated; eassumption.
-  - destruct (derive_key_gated _ _ _ _ _ _ H E) as [A [B _]]. split; assumption.
+  - destruct (derive_key_gated _ _ _ _ _ _ _ H E) as [A [_ [_ [B _]]]]. split; assumption.
   - destruct (get_wrap_gated _ _ _ _ _ _ H E) as [_ [U _]]. exact U.
 Qed.
 
@@ -631,7 +660,7 @@ Qed.
 
 Theorem gated_store_unchanged : forall cok s o r s',
   step cok s o = (r, s') -> gated o = true ->
-  s' = s \/ (exists us m, o = DeriveKey us m /\ r = OK /\ s' = add_obj s SymmetricKey m).
+  s' = s \/ (exists us m len, o = DeriveKey us m len /\ r = OK /\ s' = add_objv s SymmetricKey m (negb (len =? 0))).
 Proof.
   intros cok s o r s' H G. destruct o; simpl in G; try discriminate; simpl in H.
   - inversion H. auto.
@@ -639,12 +668,13 @@ Proof.
   - inversion H. auto.
   - inversion H. auto.
   - destruct (lookup u (objs s)) as [ob|]; [|inversion H; auto].
-    destruct (negb (alg || is_key (oty ob))); [inversion H; auto|]. destruct (negb data); [inversion H; auto|].
+    destruct (negb (alg || is_key (oty ob))); [inversion H; auto|]. destruct (negb (oval ob)); [inversion H; auto|]. destruct (negb data); [inversion H; auto|].
     destruct (negb (mac_kind_b (oty ob))); [inversion H; auto|].
     destruct (ost ob) as [st|]; [|inversion H; auto]. destruct (negb (state_eqb st Active)); [inversion H; auto|].
     destruct (negb (has_bit (omask ob) bMAC_GENERATE)); [inversion H; auto|]. destruct cok; inversion H; auto.
   - destruct (derive_bases s us); [inversion H; auto|]. destruct us; [inversion H; auto|].
-    destruct cok; inversion H; auto. right. eauto.
+    destruct (len <? 0); [inversion H; auto|]. destruct (negb (len mod 8 =? 0)); [inversion H; auto|].
+    destruct cok; inversion H; auto. right. do 3 eexists. repeat split; reflexivity.
   - destruct (lookup u (objs s)) as [ob|]; [|inversion H; auto]. destruct (lookup w (objs s)) as [k|]; [|inversion H; auto].
     destruct (negb (otype_eqb (oty k) SymmetricKey)); [inversion H; auto|]. destruct (negb (is_active k)); [inversion H; auto|].
     destruct (negb (has_bit (omask k) bWRAP_KEY)); [inversion H; auto|].
